@@ -30,7 +30,7 @@ theorem load_consistent (d0 : Descriptor) (ts : TypeSystem) (h : load Gen.consts
     Consistent ts ∧ FeatInv ts :=
   load_consistent_aux d0 ts h
 
--- UNPROVED: `load_declares` is FALSE as stated (conjunct `r.super = some t.super`).  A dot-less name that is
+-- NOTE: the unguarded `load_declares` is FALSE (of the model and of the code alike) (conjunct `r.super = some t.super`).  A dot-less name that is
 -- declared as its own supertype passes `allResolvable` (it is "declared"), is not yet registered when
 -- `createType` runs, and `getType` then resolves it by *short name*.  Counterexample (checked with `#eval`):
 --   `load Gen.consts [{ name := "TOP", super := "TOP" }]` succeeds and the record of `"TOP"` has
@@ -44,6 +44,17 @@ theorem load_consistent (d0 : Descriptor) (ts : TypeSystem) (h : load Gen.consts
 --       ∀ f ∈ t.feats, ∃ g ∈ allFeatures r, g.name = storedName f.name ∧ g.range = f.range ∧
 --         g.elem.getD TOP = f.elem.getD TOP ∧ g.descr = f.descr :=
 --   load_declares_aux d0 ts h t ht hu
+
+/-- the statement above holds for every entry that is not declared as its own supertype (such an entry cannot
+    come out of `to_xml`: the API resolves the supertype name before the type exists) -/
+theorem load_declares (d0 : Descriptor) (ts : TypeSystem) (h : load Gen.consts d0 = .ok ts)
+    (t : TDesc) (ht : t ∈ effective d0) (hu : Gen.consts.predefined.contains t.name = false)
+    (hs : t.super ≠ t.name) :
+    ∃ r : TypeRec, find? ts t.name = some r ∧ r.super = some t.super ∧ r.descr = t.descr ∧
+      List.Sublist (r.own.map renderFeat) (t.feats.map emitted) ∧
+      ∀ f ∈ t.feats, ∃ g ∈ allFeatures r, g.name = storedName f.name ∧ g.range = f.range ∧
+        g.elem.getD TOP = f.elem.getD TOP ∧ g.descr = f.descr :=
+  load_declares_of_super_ne_aux d0 ts h t ht hu hs
 
 /-- when no declared feature is already provided by an ancestor and stored names are distinct, the own
     features are exactly the declared ones -/
@@ -96,7 +107,7 @@ theorem renderType_fields (t : TypeRec) :
 
 -- (doc comment of the statement below:) the emitted descriptor: redeclared built-ins, then the user types
 -- sorted by name, none of them predefined, the implicit DocumentAnnotation left out
--- UNPROVED: `toDescriptor_user_sorted` is FALSE as stated (conjunct `pre.map (·.name) = sortStrs …`) for an
+-- NOTE: the unguarded `toDescriptor_user_sorted` is FALSE (conjunct `pre.map (·.name) = sortStrs …`) for an
 -- arbitrary `ts`: the writer looks the remembered names up with `getType`, which resolves a dot-less,
 -- unregistered name by *short name*.  Counterexample (checked with `#eval`):
 --   `toDescriptor Gen.consts { Gen.builtinTS with redeclared := ["TOP"] }` succeeds with a first entry named
@@ -111,6 +122,22 @@ theorem renderType_fields (t : TypeRec) :
 --       (∀ r ∈ ts.types, Gen.consts.predefined.contains r.name = false → r.name ≠ DOCUMENT_ANNOTATION →
 --         renderType r ∈ user) :=
 --   toDescriptor_user_sorted_aux ts d h
+
+/-- the statement above holds whenever the remembered redeclared names are registered, which is the case for
+    every loaded type system (`load_redeclared_reg`) -/
+theorem toDescriptor_user_sorted (ts : TypeSystem) (d : Descriptor)
+    (hreg : ∀ n ∈ ts.redeclared, hasExact ts n = true) (h : toDescriptor Gen.consts ts = .ok d) :
+    ∃ pre user : Descriptor, d = pre ++ user ∧
+      pre.map (·.name) = sortStrs ts.redeclared.eraseDups ∧
+      user.Pairwise (fun a b => a.name ≤ b.name) ∧
+      (∀ u ∈ user, Gen.consts.predefined.contains u.name = false ∧ u.name ≠ DOCUMENT_ANNOTATION) ∧
+      (∀ r ∈ ts.types, Gen.consts.predefined.contains r.name = false → r.name ≠ DOCUMENT_ANNOTATION →
+        renderType r ∈ user) :=
+  toDescriptor_user_sorted_of_reg_aux ts d hreg h
+
+theorem load_redeclared_reg (d0 : Descriptor) (ts : TypeSystem) (h : load Gen.consts d0 = .ok ts) :
+    ∀ n ∈ ts.redeclared, hasExact ts n = true :=
+  load_redeclared_reg_aux d0 ts h
 
 /-! Non-vacuity (tests of concrete instances) -/
 example : (load Gen.consts [{ name := "x.B", super := "x.A", feats := [{ name := "self", range := "x.A" }] },
